@@ -113,7 +113,7 @@ ApplyBinary(bop, l, r) ==
     IF bop.o = "chain"
     THEN IF Eng(l) # Eng(r) THEN Err("EngineError")
          ELSE IF Cols(l) # Cols(r) THEN Err("ColumnError")
-         ELSE IF KindOf(Eng(l)) = "sql" THEN SqlAppendBinary(bop, Conform(l), Conform(r))
+         ELSE IF KindOf(Eng(l)) = "sql" THEN Bind(Conform(l), LAMBDA cl : Bind(Conform(r), LAMBDA cr : SqlAppendBinary(bop, cl, cr)))
          ELSE Bin(ChainOp, l, r)
     ELSE \* join, common columns resolved or not (bop.res)
          IF ~(ReqP(bop.p) \subseteq (Cols(l) \cup Cols(r))) THEN Err("ColumnError")
@@ -127,7 +127,9 @@ ApplyBinary(bop, l, r) ==
                  ELSE IF ~bop.res /\ Has(bop, "mn") /\ ~(bop.mn \subseteq common) THEN Err("ColumnError")
                  ELSE IF JoinIdentity(l) /\ AsTrivial(bop.p) = "T" THEN (IF KindOf(Eng(l)) = "sql" THEN Conform(r) ELSE r)
                  ELSE IF JoinIdentity(r) /\ AsTrivial(bop.p) = "T" THEN (IF KindOf(Eng(l)) = "sql" THEN Conform(l) ELSE l)
-                 ELSE IF KindOf(Eng(l)) = "sql" THEN SqlAppendBinary(jop, Conform(l), Conform(r))
+                 \* sql.Engine.append_binary conforms both operands first (an operand of another engine is
+                 \* conformed structurally as well; the engine mismatch is only noticed by Join._finish_apply)
+                 ELSE IF KindOf(Eng(l)) = "sql" THEN Bind(Conform(l), LAMBDA cl : Bind(Conform(r), LAMBDA cr : SqlAppendBinary(jop, cl, cr)))
                  ELSE JoinFinish(jop, l, r)
 
 \* _finish_apply including PartialJoin._finish_apply
@@ -148,7 +150,7 @@ CommuteX(new, curNode) ==
     IN IF new.o # "pjoin" THEN Commute(new, cur, tc)
        \* (fix of finding F20) columns the new target shares with the fixed operand beyond the
        \* equality constraint would be replaced before the operations in between read them
-       ELSE IF FixF20 /\ new.res /\ ((tc \cap Cols(new.fixed)) \ new.common) # {} THEN Refuse(cur)
+       ELSE IF FixF20 /\ new.res /\ (((tc \cup Cols(curNode)) \cap Cols(new.fixed)) \ new.common) # {} THEN Refuse(cur)
        ELSE IF cur.o = "dedup" THEN Refuse(cur)
        ELSE IF cur.o = "proj" THEN Commutator(new, Proj(Cols(curNode) \cup Cols(new.fixed)), TRUE)
        ELSE IF ~(PJoinReq(new) \subseteq tc) THEN Refuse(cur)
@@ -160,8 +162,9 @@ CommuteX(new, curNode) ==
 BeginApply(op, t, pref) ==
     LET dflt == IF pref = "none" THEN Eng(t) ELSE pref IN
     IF op.o = "pjoin"
-    THEN LET common == IF op.res THEN op.common
-                       ELSE {c \in Cols(op.fixed) \cap Cols(t) : IsKey(c)}
+    THEN LET keys == {c \in Cols(op.fixed) \cap Cols(t) : IsKey(c)}
+             common == IF op.res THEN op.common
+                       ELSE IF Has(op, "mx") THEN keys \cap op.mx ELSE keys      \* explicit max_columns
              op1 == [op EXCEPT !.common = common, !.res = TRUE]
          IN IF ~(PJoinReq(op1) \subseteq Cols(t)) THEN Err("ColumnError")
             ELSE [op |-> op1, pref |-> IF pref = "none" THEN Eng(op.fixed) ELSE pref]
@@ -171,6 +174,8 @@ BeginApply(op, t, pref) ==
          ELSE [op |-> op, pref |-> dflt]
 
 (* ---------------- the SQL Select machine ---------------- *)
+\* TRUE: the code after the fix of finding F22 (a companion configuration overrides it)
+FixF22 == TRUE
 Conform(t) ==
     CASE t.k = "sel" -> t
       [] t.k = "un"  -> Bind(Conform(t.t), LAMBDA s : SqlAppendUnary(t.op, s))
@@ -217,7 +222,13 @@ SqlAppendUnary(op, S) ==
                     ApplySkip(S.skip, S.sort, S.proj, S.dedup, m.a, m.b))
       [] op.o = "sort" ->
             IF HasSlice(S) THEN ApplySkip(S, op.terms, NoProj, FALSE, 0, -1)
-            ELSE ApplySkip(S.skip, SortThen(Sort(S.sort), op).terms, S.proj, S.dedup, S.a, S.b)
+            ELSE LET merged == SortThen(Sort(S.sort), op).terms IN
+                 \* (fix of finding F22) the ORDER BY of a UNION can only name its result columns:
+                 \* sort expressions are evaluated one level up, over the compound select as a sub-query
+                 IF FixF22 /\ IsCompound(S) /\ \E i \in DOMAIN merged : merged[i].e.x # "ref"
+                 THEN Bind(ApplySkip(S.skip, <<>>, S.proj, S.dedup, S.a, S.b), LAMBDA inner :
+                         ApplySkip(inner, merged, NoProj, FALSE, 0, -1))
+                 ELSE ApplySkip(S.skip, merged, S.proj, S.dedup, S.a, S.b)
       [] op.o = "pjoin" ->
             Bind(Conform(op.fixed), LAMBDA f : IF op.lhs THEN SqlAppendBinary(JoinOp(op.p, op.common), f, S)
                                               ELSE SqlAppendBinary(JoinOp(op.p, op.common), S, f))
